@@ -95,8 +95,9 @@ def parseBody (w : String) : Option Body :=
         let id ← parseNat id
         let role ← unhex role
         pure (id, role)) |>.map Body.relation
-  else if w.startsWith "c:" then
-    let rest := sdrop w 2
+  else if w.startsWith "c:" || w.startsWith "cs:" then
+    -- (`cs:` = built and then `Sort()`ed by the harness; the entries are listed in key order)
+    let rest := if w.startsWith "cs:" then sdrop w 3 else sdrop w 2
     if rest.isEmpty then some (.collection []) else
       (rest.splitOn ",").mapM (fun e => do
         let (k, v) ← cut '>' e
@@ -237,6 +238,8 @@ structure S where
   obs1 : String := ""
   /-- the known class of the import failure of this case, if any -/
   cls : Option String := none
+  /-- the features the import added through their own document, in the import run of this case -/
+  importedDocs : List Nat := []
 
 def judge (impl model : String) : Verdict := if impl == model then .ok else .diff model
 
@@ -359,8 +362,10 @@ def step (σ : S) (op impl : String) : S × Verdict :=
       match stop with
       | none =>
         if !gets then ({ σ with imp := s', cls := none }, .bad)
-        else ({ σ with imp := s', cls := none }, judge impl "ok")
+        else ({ σ with imp := s', cls := none, importedDocs := ord }, judge impl "ok")
       | some (at_, why) =>
+        let done := ord.takeWhile (fun id => toString id != at_ && !at_.startsWith "mod")
+        let σ := { σ with importedDocs := done }
         if gets then ({ σ with imp := s' }, .bad)
         else if impl != "err@" ++ at_ then ({ σ with imp := s' }, .diff ("err@" ++ at_))
         else
@@ -382,6 +387,18 @@ def step (σ : S) (op impl : String) : S × Verdict :=
     else
       let a := (impl.splitOn " || ").headD ""
       (σ, judge a (obsA b σ.imp a (σ.base.map (·.id))))
+  | ["flags2"] =>
+    -- the `sorted` flag `newCollectionFeatureFromYAML` computes for every collection the import added;
+    -- collections that only live in the base keep what the harness built them with (never sorted)
+    let ids := sortNats ((σ.base.map (·.id) ++ Model.Mutable.AMap.keys σ.imp.feats).eraseDups)
+    let flags := ids.filterMap fun id => match σ.imp.find b id with
+      | some f => match f.body with
+        | .collection es =>
+          let imported := σ.importedDocs.contains id
+          some s!"{id}:{if imported && keysSorted (es.map (·.1)) then 1 else 0}"
+        | _ => none
+      | none => none
+    (σ, judge impl (renderList flags))
   | ["infer", h] =>
     match unhex h with
     | none => (σ, .bad)
